@@ -39,6 +39,17 @@ def run(tier, seed):
         modes = cc.consts(PayloadVersion="<- PVSplit", FPayloads="<- FPSplit", KeyAlgs="<- AlgsEd", Mutations="<- ModeMutations", MaxOps=4, MaxBlocks=4, SampleN=4)
         e = cc.export(ctx, "modes", modes, inv + ["ModesCoincide", "ModesAgreeOnStd", "SoundInEveryMode"], ("FORGED",), timeout=7200)
         cc.replay_forged(ctx, e.exports["FORGED"])
+    # implementation -> spec: byte-level variants (bit flips, truncations, insertions, protobuf re-encodings, another root
+    # key id) of the tokens of recorded API runs are offered to every entry point; what is ACCEPTED is projected to an
+    # abstract token and TLC checks it against the source token (ChainTrace.tla, step TAdmit)
+    from props import c02
+    trace, events, ok = c02.validate_chain_trace(ctx, 300 if tier == "quick" else 3000, "admit-trace")
+    import collections
+    adm = collections.Counter((e["kind"], e["path"]) for e in events if e["ev"] == "admit")
+    ctx.cov["replayed"]["byte-level-variants-accepted"] = {"%s/%s" % k: v for k, v in sorted(adm.items())}
+    for e in events:
+        if e["ev"] == "admit-panic":
+            ctx.finding("trace:ChainTrace:admit-panic:%s" % e["path"], "a byte-level variant (%s) made entry point %s panic: %s" % (e["kind"], e["path"], e["error"][:200]), {"kind": "chain-trace", "event": e})
     return ctx.finish(
         rule="TLC enumerates every honest API history within the bounds and every single adversary action "
              "(field substitution from the pool of seen values, reorder/drop/duplicate, truncate with every proof, "
@@ -49,7 +60,9 @@ def run(tier, seed):
              "Biscuit::from_base64 and UnverifiedBiscuit::from+verify, and to the deprecated entry points Biscuit::unsafe_deprecated_deserialize and "
              "UnverifiedBiscuit::unsafe_deprecated_deserialize+verify (modes legacy / mixed of Chain.tla; the v0 layout is modelled as the flat chunk sequence it signs, "
              "mutation Resplit presents a payload tail as an external signature); accept/reject must equal the spec's VerifyMode for the entry point. "
-             "distinct_nontrivial counts distinct (mutation kind, block position, spec verdict, authentic) classes replayed.",
+             "Byte level: for the tokens of 300 (thorough: 3000) recorded API runs, 5 protobuf re-encodings and 12 random corruptions each are offered to the 6 entry points "
+             "under the token's root key; every accepted variant is projected back to an abstract token and TLC checks SameSigned + VerifyMode against the source token "
+             "(ChainTrace.tla, TAdmit). distinct_nontrivial counts distinct (mutation kind, block position, spec verdict, authentic) classes replayed.",
         exhaustive=False)
 
 
